@@ -81,12 +81,23 @@ def restore(cls, s):
     return o
 
 
+_LABEL_SEED = [0]          # set by run_H / replay_H: the label strings rotate with VERIF_SEED, the scheme does not
+
+
+def trait_names(t, labelled):
+    """labelled == True: trait labels that are NOT in ascending order (the default for labelled matrices);
+    labelled == "sorted": ascending labels.  (labelled False: no label arrays at all.)"""
+    if labelled == "sorted":
+        return [f"tr{j}" for j in range(t)]
+    return [("yield", "height"), ("wt", "ht"), ("z_trait", "a_trait")][_LABEL_SEED[0] % 3][:t]
+
+
 def label_kw(names, grps, t, labelled, with_trait=True):
     if not labelled:
         return {}
     kw = dict(taxa=numpy.array(list(names), dtype=object), taxa_grp=numpy.array(list(grps), dtype="int64"))
     if with_trait:
-        kw["trait"] = numpy.array([f"tr{j}" for j in range(t)], dtype=object)
+        kw["trait"] = numpy.array(trait_names(t, labelled), dtype=object)
     return kw
 
 
@@ -732,6 +743,7 @@ def init_state(cls, clskey, labelled, rows, seed, ctor=None):
     that form (python int / float scalars, int64 / int32 / float32 / float64 arrays); its raw values are
     scale * mat + location, and every form has to behave like the float64 one."""
     n0, t = len(rows), len(rows[0])
+    _LABEL_SEED[0] = seed
     pre = ["x", "tx", "g"][seed % 3]
     names, grps = [f"{pre}{i}" for i in range(n0)], [[2, 1, 2, 5][i % 4] for i in range(n0)]
     pool = Pool(cls, seed, t, labelled)
@@ -778,6 +790,7 @@ def run_H(ctx, clskey, labelled, rows_sym, depth, part, nparts, ctor=None):
     ctx.state(digest((clskey, s0, R.colmags(taxa0), True)))
     frontier = collections.deque([((), s0, taxa0, True, b0, 0)])
     ctx.flag("labelled" if labelled else "unlabelled")
+    ctx.flag("trait-labels:" + ("absent" if not labelled else "sorted" if labelled == "sorted" else "unsorted" if t >= 2 else "single"))
     while frontier:
         hist, ps, taxa, fresh, built, d = frontier.popleft()
         if d >= depth:
@@ -856,6 +869,8 @@ def h_inits(tier):
         out.append(("BV", True, r))
     for r in (INIT_T2[0], INIT_T2[2], INIT_T2[4], INIT_T1[0]):
         out.append(("BV", False, r))
+    for r in (INIT_T2[0], INIT_T2[4]):
+        out.append(("BV", "sorted", r))          # ascending trait labels (labelled True = labels not in ascending order)
     for key in ("EBV", "GEBV"):
         # the subclasses share every method with the base class (they differ in the constructor signature only):
         # quick gives them a cover of the shortcut cases, thorough the complete list
@@ -978,6 +993,8 @@ def finalize(ctx, tier, seed):
         assert c.get(f"op:{key}:__copy__", 0) > 0, key
     for form in CTOR_FORMS:
         assert f"ctor-form:{form}" in f, form
+    for k in ("absent", "sorted", "unsorted"):
+        assert f"trait-labels:{k}" in f, k
     assert len(ctx.outcomes) > 500, len(ctx.outcomes)
     assert len(ctx.states) > 1000, len(ctx.states)
     DSM.finalize(ctx, tier, seed)
